@@ -791,6 +791,167 @@ def prune_trivial_switches(doc):
     return n
 
 
+def trait_renames(doc):
+    """undo the rename / move of a crate-local *trait*: a trait path that occurs in no pinned
+    function path, while exactly one pinned local trait with the same set of method names has
+    vanished, is that trait ([(new path, pinned path)]; `IterExt` moved to `frame_iter::FrameIterExt`)"""
+    here = os.path.dirname(os.path.abspath(__file__))
+    try:
+        sigs = json.load(open(os.path.join(here, "pinned_sigs.json")))
+        pmods = set(json.load(open(os.path.join(here, "pinned_mods.json"))))
+    except OSError:
+        return []
+    rx = re.compile(r"^<(.+) as ((?:\w+::)*\w+)(?:<.*>)?>::(\w+)$")
+    mods = set(doc.get("mods", [])) | pmods
+
+    def local(tp):
+        return "::" not in tp or tp.rsplit("::", 1)[0] in mods
+
+    def collect(paths):
+        d = {}
+        for pth in paths:
+            m = rx.match(pth)
+            if m and local(m.group(2)) and not m.group(2).startswith(("std::", "core::", "serde::", "alloc::")):
+                d.setdefault(m.group(2), set()).add(m.group(3))
+        return d
+    cur = collect(b["path"] for b in doc["bodies"] if b.get("kind") != "Closure")
+    pin = collect(sigs)
+    gone = {t: ms for t, ms in pin.items() if t not in cur}
+    fresh = {t: ms for t, ms in cur.items() if t not in pin}
+    out = []
+    for t2, ms2 in sorted(fresh.items()):
+        cands = [t for t, ms in gone.items() if ms == ms2 and t not in [b_ for _a, b_ in out]]
+        if len(cands) == 1:
+            out.append((t2, cands[0]))
+    return out
+
+
+def flatten_new_nested_structs(doc):
+    """undo the grouping of some fields of a pinned struct into a nested *new* struct
+    (`SpeechGenerator { spectrum, lf0, lpf, .. }` -> `{ trajectories: Trajectories { spectrum, lf0,
+    lpf }, .. }`): when a pinned struct lost fields f.. and gained a field g whose type is a struct
+    that is not in the pinned tree and has fields named f.., every place `x.g.f` is read as `x.f`
+    and a literal `A { g: B { f: v, .. }, .. }` as `A { f: v, .. }`."""
+    global _FIELD_TABLE
+    if _FIELD_TABLE is None:
+        try:
+            _FIELD_TABLE = json.load(open(os.path.join(os.path.dirname(os.path.abspath(__file__)), "pinned_fields.json")))
+        except OSError:
+            _FIELD_TABLE = {}
+    table = _FIELD_TABLE
+    adts = {a["path"]: a for a in doc.get("adts", [])}
+    groups = {}     # (A, g) -> (B, set of field names)
+    again = doc.get("_flatten_groups")
+    if again:
+        groups = {tuple(k.split("|", 1)): (v[0], set(v[1]), v[2]) for k, v in again.items()}
+    for a in ([] if again else doc.get("adts", [])):
+        rec = table.get(a["path"])
+        if not rec or len(a.get("variants", [])) != 1 or a.get("kind") != "struct":
+            continue
+        pinned = list(rec.values())[0]
+        act = a["variants"][0]["fields"]
+        names = [f["name"] for f in act]
+        lost = [f for f in pinned if f not in names]
+        if not lost:
+            continue
+        for f in act:
+            if f["name"] in pinned:
+                continue
+            bpath = (f.get("info") or {}).get("def")
+            b = adts.get(bpath)
+            if b is None or bpath in table or len(b.get("variants", [])) != 1:
+                continue
+            bnames = [x["name"] for x in b["variants"][0]["fields"]]
+            inner = [x for x in lost if x in bnames]
+            if inner:
+                groups[(a["path"], f["name"])] = (bpath, set(inner), pinned)
+    if not groups:
+        return []
+
+    def fix_proj(proj):
+        out = []
+        i = 0
+        while i < len(proj):
+            el = proj[i]
+            nxt = proj[i + 1] if i + 1 < len(proj) else None
+            g = groups.get((el.get("of"), el.get("name"))) if el.get("k") == "field" else None
+            if g and nxt is not None and nxt.get("k") == "field" and nxt.get("of") == g[0] and nxt.get("name") in g[1]:
+                e2 = dict(nxt)
+                e2["of"] = el["of"]
+                e2["i"] = g[2].index(nxt["name"])
+                out.append(e2)
+                i += 2
+                continue
+            out.append(el)
+            i += 1
+        return out
+
+    def walk(o):
+        if isinstance(o, dict):
+            if isinstance(o.get("proj"), list) and "local" in o:
+                o["proj"] = fix_proj(o["proj"])
+            for v in o.values():
+                walk(v)
+        elif isinstance(o, list):
+            for v in o:
+                walk(v)
+    for b in doc["bodies"]:
+        walk(b.get("blocks"))
+        for pj in b.get("promoted") or []:
+            walk(pj.get("blocks"))
+        # literals: A { g: move _t, .. } with _t = B { f: .., .. } defined once in this body
+        defs = {}
+        for blk in b.get("blocks") or []:
+            for st in blk["stmts"]:
+                if st.get("k") == "assign" and not st["place"].get("proj"):
+                    defs.setdefault(st["place"]["local"], []).append(st)
+        for blk in b.get("blocks") or []:
+            for st in blk["stmts"]:
+                rv = st.get("rv") or {}
+                if st.get("k") != "assign" or rv.get("k") != "aggregate" or rv["kind"].get("k") != "adt":
+                    continue
+                A = rv["kind"].get("def")
+                fields = list(rv["kind"].get("fields") or [])
+                ops = list(rv.get("ops") or [])
+                changed = False
+                for k in range(len(fields) - 1, -1, -1):
+                    g = groups.get((A, fields[k]))
+                    if not g or k >= len(ops):
+                        continue
+                    op = ops[k]
+                    if op.get("k") not in ("move", "copy") or op["place"].get("proj"):
+                        continue
+                    ds = defs.get(op["place"]["local"], [])
+                    if len(ds) != 1 or (ds[0]["rv"].get("k") != "aggregate") or ds[0]["rv"]["kind"].get("def") != g[0]:
+                        continue
+                    inner = ds[0]["rv"]
+                    fields[k:k + 1] = list(inner["kind"].get("fields") or [])
+                    ops[k:k + 1] = list(inner.get("ops") or [])
+                    changed = True
+                if changed:
+                    rv["kind"]["fields"] = fields
+                    rv["ops"] = ops
+    if again:
+        return sorted(again)
+    doc["_flatten_groups"] = {"%s|%s" % k: [v[0], sorted(v[1]), v[2]] for k, v in groups.items()}
+    # the struct facts themselves
+    for (A, gname), (B, inner, pinned) in groups.items():
+        a = adts[A]
+        fs = a["variants"][0]["fields"]
+        bf = {x["name"]: x for x in adts[B]["variants"][0]["fields"]}
+        new_fs = []
+        for f in fs:
+            if f["name"] == gname:
+                new_fs.extend(bf[n] for n in adts[B]["variants"][0]["fields"] and [x["name"] for x in adts[B]["variants"][0]["fields"]] if n in inner)
+                rest = [x for x in adts[B]["variants"][0]["fields"] if x["name"] not in inner]
+                if rest:
+                    new_fs.append(f)
+            else:
+                new_fs.append(f)
+        a["variants"][0]["fields"] = new_fs
+    return sorted("%s.%s -> %s" % (A, g, B) for (A, g), (B, _i, _p) in groups.items())
+
+
 def canonicalise_fn_renames(doc):
     """undo the rename of a private function: a function that is not in the pinned tree, while
     exactly one pinned function of the same impl / module with the same signature is missing, is
@@ -1074,8 +1235,15 @@ class Program:
                 for nm, lm in ar:
                     text = re.sub(r"(?<![\w:])" + re.escape(nm) + r"(?![\w])", lambda _m, lm=lm: lm, text)
                 doc = json.loads(text)
+            tr = trait_renames(doc)
+            if tr:
+                for nm, lm in tr:
+                    text = re.sub(r"(?<![\w:])" + re.escape(nm) + r"(?![\w])", lambda _m, lm=lm: lm, text)
+                doc = json.loads(text)
             doc["module_renames"] = mr
             doc["adt_renames"] = ar
+            doc["trait_renames"] = tr
+            doc["flattened"] = flatten_new_nested_structs(doc)
         mode = os.environ.get("JBV_ANON")
         if mode:
             anonymise(doc, mode)
@@ -1093,6 +1261,9 @@ class Program:
             des = [] if os.environ.get("JBV_NO_DESUGAR") else desugar_effect_combinators(doc)
             inl = inline_new_helpers(doc)
             doc["desugared"] = des
+            if doc.get("_flatten_groups"):
+                # places composed by the inliner (`(*r).f` with r = &x.g) are flattened as well
+                flatten_new_nested_structs(doc)
         prog = cls(doc)
         prog.inlined = inl
         return prog
